@@ -150,10 +150,6 @@ def run_case(case, st=None):
         backing.add(tuple(dec(x) for x in t) + (GRAPHS[1],))
     other = {tuple(lkey(dec(x)) for x in t) for t in case["other"]}
     carve = not case.get("no_carve")
-    has_cr = any(isinstance(dec(x), Literal) and "\r" in str(dec(x)) for stp in case["steps"] for part in stp[1:] if isinstance(part, list) for x in (part if part and isinstance(part[0], list) and part[0] and isinstance(part[0][0], str) and len(part[0]) in (2, 4) and not isinstance(part[0][0], list) else []) if x)
-    if cfg["fmt"] == "xml" and carve and '"a\\rb"' in json.dumps(case["steps"]):
-        st.setdefault("_known", {})["C20-xml-carriage-return"] = 1
-        return None
     store = SPARQLUpdateStore(url, url, method=cfg["method"], returnFormat=cfg["fmt"], autocommit=cfg["autocommit"], dirty_reads=cfg["dirty"])
     g = Graph(store, identifier=gname) if gname is not None else Graph(store, identifier=DATASET_DEFAULT_GRAPH_ID)
     committed = {}     # tkey -> triple : what the endpoint's graph must hold
